@@ -15,6 +15,7 @@ from vf import gen as G, model as M, opwork as W, oracle as O, props as P, snaps
 from vf.checks.common import Case, call, exc_text
 
 ID = "C12"
+TECHNIQUE = "runtime monitoring: reference-model monitor under similarity maps (metamorphic relation with an exact model)"
 LEVEL = "exploration"
 RULE = ("operand pairs (simple / connected / disjoint / unbounded, polygons float and rational, circles and Bezier blobs) in "
         "general position that hold at unit scale (re-verified in the same run) x similarity maps: uniform scale 1e-3..1e5 "
